@@ -59,4 +59,14 @@ func init() {
 		Rule{Name: "E5", Run: runE5}, Rule{Name: "E2", Run: runE2})
 }
 
+func init() {
+	register("C14", Rule{Name: "E1.rows", Run: runRows("C14")}, Rule{Name: "E10.symbols", Run: runSymbolFields}, Rule{Name: "E10.fault", Run: runFaultIsolation("Symbols")},
+		Rule{Name: "E10.json", Run: runJSONRemainder}, Rule{Name: "E2.poskeys", Run: runPosKeys}, Rule{Name: "E2", Run: runE2})
+}
+
+func init() {
+	register("C16", Rule{Name: "E1.rows", Run: runRows("C16")}, Rule{Name: "E2.cmp-subject", Run: runCmpSubject}, Rule{Name: "E2.cmp", Run: runE2Comparators},
+		Rule{Name: "E11.key-source", Run: runSchemaKeySource}, Rule{Name: "E11.key-canonical", Run: runKeyCanonical}, Rule{Name: "E11.consumers", Run: runLookupConsumers}, Rule{Name: "E3", Run: runE3}, Rule{Name: "E5", Run: runE5})
+}
+
 var childExceptions = map[string]string{}
